@@ -360,7 +360,8 @@ def validate_trace(module, cfg, trace_path, shards=4, heap="3g", timeout=1800, w
     Accept predicate rejects.  Returns (results, rejects) where rejects are 0-based
     global line numbers.  Raises Infra if the state count does not equal
     1 + #events (anti-vacuity: every line was judged)."""
-    lines = open(trace_path).read().splitlines()
+    # split on "\n" only: str.splitlines() also splits on U+0085, U+2028 ... which may occur inside JSON strings
+    lines = [l for l in open(trace_path, encoding="utf-8", errors="surrogateescape").read().split("\n") if l]
     n = len(lines)
     if n == 0:
         raise Infra("empty trace %s" % trace_path)
